@@ -3,6 +3,7 @@ package content
 import (
 	"errors"
 	"html/template"
+	"reflect"
 
 	"github.com/gobuffalo/plush/v5/helpers/hctx"
 )
@@ -18,7 +19,9 @@ func ContentOf(name string, data hctx.Map, help hctx.HelperContext) (template.HT
 		return template.HTML(""), errors.New("missing helper context for contentOf: " + name)
 	}
 
-	if owner, ok := help.Value("contentFor:" + name + ":block").(hctx.HelperContext); ok {
+	fn, ok := help.Value("contentFor:" + name).(func(data hctx.Map) (template.HTML, error))
+	if owner, stored := help.Value(blockKey + name).(hctx.HelperContext); ok && stored && reflect.ValueOf(fn).Pointer() == replayCode {
+		// the function is the one contentFor has stored
 		if runner, ok := help.(blockRunner); ok {
 			hc := owner.New()
 			for k, v := range data {
@@ -32,7 +35,6 @@ func ContentOf(name string, data hctx.Map, help hctx.HelperContext) (template.HT
 		}
 	}
 
-	fn, ok := help.Value("contentFor:" + name).(func(data hctx.Map) (template.HTML, error))
 	if !ok {
 		if !help.HasBlock() {
 			return template.HTML(""), errors.New("missing contentOf block: " + name)
